@@ -10,6 +10,7 @@ from .c01 import bounds
 from .c04 import canonical_nans
 from .c19 import ident, same, _search
 
+WARMUP = True  # a concrete first use of the harness before each path (vf/explore.py: WarmEnv)
 PROPERTY = "C05"
 FILES = ["betterproto/__init__.py", "betterproto/casing.py"]
 
